@@ -403,7 +403,8 @@ PLANS = {
     "C01": dict(attr=["C01."], mc=lambda t: mc_store(t), workloads=wl_core, assumptions=COMMON_ASSUME),
     "C05": dict(attr=["C05."], mc=lambda t: mc_store(t), workloads=wl_core, assumptions=COMMON_ASSUME),
     "C06": dict(attr=["C06."], mc=lambda t: mc_store(t) + [_mc("MCStoreB_q.tla", "MCStoreB.cfg"), _mc("MCStoreB_q.tla", "MCStoreB_large.cfg", workers=2, witness="LargeBoundFalse")], workloads=wl_space, assumptions=COMMON_ASSUME),
-    "C09": dict(attr=["C09.", "C01.result", "C01.outcome"], mc=lambda t: MC_LAYOUT(t) + mc_store(t), workloads=wl_layout, assumptions=COMMON_ASSUME),
+    "C09": dict(attr=["C09.", "C01.result", "C01.outcome"], mc=lambda t: MC_LAYOUT(t) + mc_store(t), proofs=["AbyLayoutProofs.tla"],
+                workloads=wl_layout, assumptions=COMMON_ASSUME),
     "C17": dict(attr=["C17.", "C06.stats_terminate"], mc=lambda t: mc_store(t),
                 workloads=lambda tier, seed: [("statsync", [gen.gen_stats_sync(seed * 1000 + 30 + i, idbase=(970 + i) * IDSTEP, rounds=12 if tier == "quick" else 60, name="statsync_%d" % i)
                                                             for i in range(3 if tier == "quick" else 12)], dict(per_tlc=1, tlc_jobs=4))] + wl_core(tier, seed), assumptions=COMMON_ASSUME),
